@@ -315,10 +315,17 @@ def _zmax(samples):
 
 
 def gen_lengths(rng, tier):
-    big = 60
+    """three lengths in 2..60: a size class per case (small / medium / large), one series sometimes from another
+    class; mostly three different lengths, sometimes equal ones"""
+    classes = {"small": (2, 8), "medium": (5, 25), "large": (20, 60)}
     while True:
-        ns = [rng.randint(2, big) if rng.random() < 0.7 else rng.randint(2, 8) for _ in range(3)]
-        if len(set(ns)) == 3 or rng.random() < 0.15:  # mostly three different lengths; sometimes equal ones
+        cls = rng.choice(["small", "medium", "medium", "large", "large"])
+        ns = [rng.randint(*classes[cls]) for _ in range(3)]
+        if rng.random() < 0.3:
+            ns[rng.randrange(3)] = rng.randint(*classes[rng.choice(list(classes))])
+        if rng.random() < 0.12:
+            ns = [ns[0]] * 3
+        if len(set(ns)) == 3 or len(set(ns)) == 1:
             return ns
 
 
@@ -376,6 +383,19 @@ def gen_case(rng, config, stream="main", tier="quick"):
             H = _series(rng, nH, data, cO + shiftH, wH, ties)
             F = _series(rng, nF, data, cO + shiftF, wF, tiesF)
         obs, H, F = ([k / 64.0 for k in s] for s in (obs, H, F))
+        if stream == "degenerate":
+            # guards: a constant sample (fitted scale 0) or a historical mean of exactly 0
+            which = rng.choice(["constH", "constO", "constF", "meanH0"])
+            if which == "constH":
+                H = [H[0]] * len(H)
+            elif which == "constO":
+                obs = [obs[0]] * len(obs)
+            elif which == "constF":
+                F = [F[0]] * len(F)
+            else:
+                H = [abs(x) + 1 / 64.0 for x in H[: len(H) // 2]]
+                H = H + [-x for x in H]
+            return dict(obs=obs, H=H, F=F, years=None, degenerate=which, **({"t": 1.0 / 64} if config.get("param") else {}))
         if config.get("param") and _zmax([obs, H, F]) > 20:
             continue
         if config["family"] == "SDMabs" and not tiesF and (len(set(F)) < len(F)):
@@ -420,7 +440,11 @@ def compare(config, case, kind, value, model_line, stats):
     if parsed[0] == "error":
         return {**info, "impl": str(value.tolist())[:200], "model": model_line[:200], "why": "model raises, code does not"}
     if parsed[0] == "undef":
+        # the model's guard fails (division by zero): the float code must not have produced an all-finite result
         st["undef"] += 1
+        if np.all(np.isfinite(value)):
+            st["undef_but_finite"] += 1
+            return {**info, "impl": str(value.tolist())[:200], "model": "undef", "why": "guard fails but the code returns finite values"}
         return None
     _, mvals, flags, ill = parsed
     ill = set(ill)
@@ -448,6 +472,11 @@ def compare(config, case, kind, value, model_line, stats):
         st["compared_elements"] += 1
     if flags:
         st["cases_with_ties"] += 1
+        # how many of the flagged elements really came out on the other side (evidence that the flags are needed)
+        for i in flags:
+            m, v = mvals[i], value.tolist()[i]
+            if m is not None and not (np.isfinite(v) and abs(v - float(m)) <= 1e-9 * (1 + max(scale, abs(float(m))))):
+                st["ties_elements_differing"] += 1
     if bad:
         return {**info, "impl": [b[1] for b in bad[:5]], "model": [b[2] for b in bad[:5]], "index": [b[0] for b in bad[:5]],
                 "n_bad": len(bad), "why": "values"}
@@ -475,10 +504,12 @@ def correspondence(rng, n_cases, tier, res, families=None, ties_fraction=0.25):
     dist = Counter()
     lines, todo, mismatches = [], [], []
     for fam in fams:
-        names = FAMILIES[fam]
+        names = [n for n in FAMILIES[fam] for _ in range(1 if CONFIGS[n].get("invalid") else 12)]
         for k in range(n_cases):
             config = CONFIGS[names[k % len(names)]]
             stream = "ties" if rng.random() < ties_fraction else "main"
+            if config["family"] in ("LS", "DC", "QM", "ECDFM", "SDMabs") and not config.get("invalid") and rng.random() < 0.04:
+                stream = "degenerate"
             case = gen_case(rng, config, stream, tier)
             params = case_params(case)
             kind, value, u = run_real(config, case["obs"], case["H"], case["F"], years=case["years"], **params)
